@@ -91,6 +91,15 @@ class TDict(T):
         return "dict[str, %r]" % (self.vt,)
 
 
+class TSMap(T):
+    """mutable dict with int or node keys and values of type vt (int, or list of nodes / ints)"""
+    def __init__(self, vt):
+        self.vt = vt
+
+    def __repr__(self):
+        return "smap[%r]" % (self.vt,)
+
+
 class TOpt(T):
     def __init__(self, inner):
         self.inner = inner
@@ -636,6 +645,14 @@ def fresh(ty, name, idx=(), assume=None):
         return wrap_of(ty)(t)
     if isinstance(ty, TNone):
         return VNone
+    if isinstance(ty, TSMap):
+        if idx:
+            raise Unsupported("dict inside a symbolic container")
+        m = VSMap.fresh(ty.vt, name)
+        if assume is not None and m.ln is not None:
+            q = z3.Int(fresh_name("q"))
+            assume.append(z3.ForAll([q], z3.Select(m.ln, q) >= 0, patterns=[z3.Select(m.ln, q)]))
+        return m
     if isinstance(ty, TDict):
         if idx:
             raise Unsupported("dict inside a symbolic container")
@@ -712,6 +729,10 @@ def coerce(v, ty, base=None, idx=()):
                 arr = z3.Const(fresh_name(base + "_arr"), z3.ArraySort(IntS, sort_of(ty.elem)))
                 return VList(0, arr=arr, wrap=wrap_of(ty.elem), et=ty.elem)
             return VList(v.n, get=lambda i, v=v: coerce(v.get(i), ty.elem, base + "_e", tuple(idx) + (i,)), et=ty.elem)
+    if isinstance(ty, TSMap):
+        if isinstance(v, VRec) and v.cls == "dict" and not v.fields:
+            return VSMap.empty(ty.vt)
+        return v
     if isinstance(ty, TOpt):
         if v is VNone or v is None:
             return VOpt(z3.BoolVal(True), fresh(ty.inner, base + "_none"))
@@ -884,6 +905,57 @@ def qforall(vs, body, pats=()):
         except z3.Z3Exception:
             pass       # e.g. a pattern over a Store term: let the solver choose
     return z3.ForAll(vs, body)
+
+
+class VSMap(V):
+    """dict keyed by integers / node references: has : Int -> Bool; values either ints (val : Int -> Int) or lists
+    (ln : Int -> Int, els : Int -> (Int -> Int))"""
+    def __init__(self, vt, has, val=None, ln=None, els=None):
+        self.vt, self.has_a, self.val, self.ln, self.els = vt, has, val, ln, els
+
+    @staticmethod
+    def empty(vt):
+        m = VSMap.fresh(vt, "emptymap")
+        m.has_a = z3.K(IntS, z3.BoolVal(False))
+        if m.ln is not None:
+            m.ln = z3.K(IntS, z3.IntVal(0))
+        return m
+
+    @staticmethod
+    def fresh(vt, name):
+        has = z3.Const(fresh_name(name + "_has"), z3.ArraySort(IntS, BoolS))
+        if isinstance(vt, TInt):
+            return VSMap(vt, has, val=z3.Const(fresh_name(name + "_val"), IntArr))
+        if isinstance(vt, TList) and isinstance(vt.elem, (TInt, TRef)):
+            return VSMap(vt, has, ln=z3.Const(fresh_name(name + "_len"), IntArr),
+                         els=z3.Const(fresh_name(name + "_els"), z3.ArraySort(IntS, IntArr)))
+        raise Unsupported("dict with values of type %r" % (vt,))
+
+    def has(self, k):
+        return VBool(z3.Select(self.has_a, k))
+
+    def get(self, k):
+        if self.val is not None:
+            return VInt(z3.Select(self.val, k))
+        return VList(z3.Select(self.ln, k), arr=z3.Select(self.els, k), wrap=wrap_of(self.vt.elem), et=self.vt.elem)
+
+    def store(self, k, v):
+        """returns (new map, definitional facts)"""
+        has = z3.Store(self.has_a, k, True)
+        if self.val is not None:
+            return VSMap(self.vt, has, val=z3.Store(self.val, k, toint(v))), []
+        if isinstance(v, (list, tuple)):
+            v = VList.from_py(list(v))
+        defs = []
+        if v.arr is not None:
+            arr = v.arr
+        else:
+            arr = z3.Const(fresh_name("mapval"), IntArr)
+            j = z3.Int(fresh_name("j"))
+            el = v.get(j)
+            if hasattr(el, "t"):
+                defs.append(z3.ForAll([j], z3.Select(arr, j) == el.t, patterns=[z3.Select(arr, j)]))
+        return VSMap(self.vt, has, ln=z3.Store(self.ln, k, v.n), els=z3.Store(self.els, k, arr)), defs
 
 
 def ite_value(cases, ty):
